@@ -6,13 +6,13 @@ import (
 	"bytes"
 	"context"
 	"errors"
-	"io"
 	"io/fs"
 	"log/slog"
 
 	"github.com/bufbuild/buf/private/bufpkg/bufcas"
 	"github.com/bufbuild/buf/private/bufpkg/bufmodule"
 	"github.com/bufbuild/buf/private/bufpkg/bufparse"
+	"github.com/bufbuild/buf/private/pkg/encoding"
 	"github.com/bufbuild/buf/private/pkg/filelock"
 	"github.com/bufbuild/buf/private/pkg/storage"
 	"github.com/bufbuild/buf/private/pkg/thread"
@@ -29,8 +29,9 @@ import (
 //   - failAt / failAt2 = k: operation k returns an error (Put: no object created; Write: a prefix of the bytes may
 //     have been written; Close of an atomic Put: object not published; Close of a non-atomic Put: bytes stay).
 // Non-atomic Put publishes the (truncated) object at Put time and every Write immediately; atomic Put publishes the
-// whole content at a successful Close and nothing otherwise (that is the contract of storage.PutWithAtomic, which
-// C15-C checks for the disk bucket).
+// whole content at a successful Close and nothing otherwise - also nothing when an earlier Write failed (that is the
+// documented contract of storage.PutWithAtomic: "Any errors will cause the Put to be skipped"; C15-C checks it for the
+// disk bucket).
 // ===================================================================================================
 
 var (
@@ -161,6 +162,7 @@ type vdWriter struct {
 	atomic bool
 	buf    []byte
 	closed bool
+	failed bool // some Write returned an error (an atomic Put is then skipped: "Any errors will cause the Put to be skipped")
 }
 
 func (b *vdBucket) Put(ctx context.Context, path string, opts ...storage.PutOption) (storage.WriteObjectCloser, error) {
@@ -177,10 +179,15 @@ func (b *vdBucket) Put(ctx context.Context, path string, opts ...storage.PutOpti
 func (w *vdWriter) Write(p []byte) (int, error) {
 	apply, err := w.b.step()
 	if !apply {
+		w.failed = true
 		if w.b.ops == w.b.crashAt || w.b.faulted {
 			// the failing / crashing write itself may have transferred a proper prefix of p
 			if !w.atomic && len(p) > 0 && (err == vdErrInjected || w.b.ops == w.b.crashAt) && !w.closed {
-				n := verifNondetChoice(len(p))
+				// 0, 1 or all-but-one bytes (three representative prefixes)
+				n := []int{0, 1, len(p) - 1}[verifNondetChoice(3)]
+				if n > len(p)-1 {
+					n = len(p) - 1
+				}
 				if n > 0 && w.b.find(w.path) >= 0 {
 					w.buf = append(w.buf, p[:n]...)
 					w.b.set(w.path, append([]byte(nil), w.buf...))
@@ -204,6 +211,9 @@ func (w *vdWriter) Close() error {
 		return err
 	}
 	if w.atomic {
+		if w.failed {
+			return vdErrInjected
+		}
 		w.b.set(w.path, append([]byte(nil), w.buf...))
 	}
 	return nil
@@ -465,9 +475,6 @@ func VerifLemma_C09_RoundTrip() {
 	b := &vdBucket{}
 	store := vdStore(b)
 	err := store.PutModuleDatas(context.Background(), []bufmodule.ModuleData{m.moduleData(m.key)})
-	if err != nil {
-		panic("DBG: " + err.Error())
-	}
 	verifAssert(err == nil, "fault-free put succeeds")
 	verifAssert(vdMarkerPresent(b), "fault-free put leaves the entry marked complete")
 	verifAssert(b.mutationsWithoutExclusiveLock == 0, "every mutation of the entry happens under the exclusive lock")
@@ -482,19 +489,291 @@ func VerifLemma_C09_RoundTrip() {
 	}
 	err = vdStore(b).PutModuleDatas(context.Background(), []bufmodule.ModuleData{m.moduleData(m.key)})
 	verifAssert(err == nil && b.ops == opsAfterFirst, "putting a complete entry again writes nothing")
-	_ = io.EOF
 }
 
-func VerifLemma_C09_Dbg() {
-	verifCover("x")
-	verifAssert(fs.ErrNotExist != nil, "fs.ErrNotExist set")
-	var e error = &fs.PathError{Op: "read", Path: "p", Err: fs.ErrNotExist}
-	verifAssert(errors.Is(e, fs.ErrNotExist), "is")
+func vdPutOne(b *vdBucket, m *vdModule) error {
+	return vdStore(b).PutModuleDatas(context.Background(), []bufmodule.ModuleData{m.moduleData(m.key)})
+}
+
+// vdGetOne returns the found ModuleData or nil (miss).
+func vdGetOne(b *vdBucket, m *vdModule) bufmodule.ModuleData {
+	found, notFound, err := vdStore(b).GetModuleDatasForModuleKeys(context.Background(), []bufmodule.ModuleKey{m.key})
+	verifAssert(err == nil && len(found)+len(notFound) == 1, "get classifies the key as found or not found")
+	if len(found) == 1 {
+		return found[0]
+	}
+	return nil
+}
+
+// vdRepair: after a failed / interrupted store, a fault-free store of the same module makes the entry a correct hit.
+func vdRepair(b *vdBucket, m *vdModule) {
+	b.crashed, b.faulted, b.crashAt, b.failAt, b.failAt2 = false, false, 0, 0, 0
+	verifAssert(vdPutOne(b, m) == nil, "repair: a later fault-free put succeeds")
+	got := vdGetOne(b, m)
+	verifAssert(got != nil, "repair: after the later put the entry is found")
+	if got != nil {
+		verifAssert(vdCheckHit(m, got, "repair"), "repair: the repaired entry passes the digest check")
+	}
+}
+
+func vdMaxOps(m *vdModule) int { return 3*(len(m.files)+3) + 1 }
+
+// VerifLemma_C09A_CrashPoints: the process dies at the k-th mutating bucket operation (every Put / Write / Close
+// boundary, k symbolic; the dying non-atomic Write may leave a prefix). A later process then reads the key:
+// miss, or a hit with exactly the intended content; the entry is marked complete only if nothing was cut off;
+// a later put repairs the entry.
+func VerifLemma_C09A_CrashPoints() {
+	thread.SetParallelism(1)
+	m := vdNewModule(vdDigestType())
 	b := &vdBucket{}
-	_, err := b.Get(context.Background(), "x")
-	verifAssert(errors.Is(err, fs.ErrNotExist), "is2")
-	_, err = storage.ReadPath(context.Background(), storage.MapReadWriteBucket(b, storage.MapOnPrefix("a/b")), "x")
-	if !errors.Is(err, fs.ErrNotExist) {
-		panic("DBG2: " + err.Error())
+	b.crashAt = verifNondetInt(1, vdMaxOps(m))
+	err := vdPutOne(b, m)
+	crashed := b.crashed
+	if crashed {
+		verifCover("crashed during the put")
+		verifAssert(!vdMarkerPresent(b), "an interrupted put never leaves the entry marked complete")
+	} else {
+		verifCover("crash point after the last operation")
+		verifAssert(err == nil && vdMarkerPresent(b), "an uninterrupted put completes the entry")
+	}
+	// a later process
+	b.crashed, b.crashAt = false, 0
+	got := vdGetOne(b, m)
+	if crashed {
+		verifAssert(got == nil, "an interrupted entry is a miss")
+	}
+	if got != nil {
+		verifAssert(vdCheckHit(m, got, "crash"), "a hit after a crash serves exactly the intended module")
+	}
+	vdRepair(b, m)
+}
+
+// VerifLemma_C09B_Faults: the k-th (and optionally the l-th, l>k) mutating bucket operation returns an error.
+// PutModuleDatas reports it, the entry is not marked complete, a reader misses, a later put repairs.
+func VerifLemma_C09B_Faults() {
+	thread.SetParallelism(1)
+	m := vdNewModule(vdDigestType())
+	b := &vdBucket{}
+	b.failAt = verifNondetInt(1, vdMaxOps(m))
+	if verifParam("DOUBLE") == 1 {
+		b.failAt2 = verifNondetInt(0, vdMaxOps(m))
+		verifAssume(b.failAt2 == 0 || b.failAt2 > b.failAt)
+	}
+	err := vdPutOne(b, m)
+	if b.faulted {
+		verifCover("a write operation failed")
+		verifAssert(err != nil, "a failed Put/Write/Close is reported by PutModuleDatas")
+		verifAssert(!vdMarkerPresent(b), "a failed put never leaves the entry marked complete")
+	} else {
+		verifAssert(err == nil && vdMarkerPresent(b), "no fault: the put completes the entry")
+	}
+	verifAssert(b.locks.errors == 0 && !b.locks.exclusive && b.locks.shared == 0, "locks are released on every exit")
+	faulted := b.faulted
+	b.failAt, b.failAt2 = 0, 0
+	got := vdGetOne(b, m)
+	if faulted {
+		verifAssert(got == nil, "a failed entry is a miss")
+	}
+	if got != nil {
+		verifAssert(vdCheckHit(m, got, "fault"), "a hit serves exactly the intended module")
+	}
+	vdRepair(b, m)
+}
+
+// ===================================================================================================
+// C09-C tampering of a complete entry
+// ===================================================================================================
+
+func vdEntryDir(m *vdModule) string {
+	dir, err := getModuleDataStoreDirPath(m.key)
+	vdMust(err)
+	return dir
+}
+
+const (
+	vdTamperFlip = iota
+	vdTamperTruncate
+	vdTamperDelete
+	vdTamperAdd
+	vdTamperRename
+	vdTamperSideFile
+	vdTamperMarker
+	vdTamperKinds
+)
+
+// vdTamper applies one modification to the complete entry. It returns whether the modification can change what the
+// key's digest covers (false: e.g. an added file that is not a module file; such a change must then be invisible or
+// harmless) and whether it touches only data that the digest type does not cover (side files under b5).
+func vdTamper(b *vdBucket, m *vdModule, kind int) (outsideDigest bool) {
+	dir := vdEntryDir(m)
+	filesDir := dir + "/" + externalModuleDataFilesDir + "/"
+	victim := m.files[verifNondetChoice(len(m.files))]
+	i := b.find(filesDir + victim.path)
+	verifAssert(i >= 0, "harness: the complete entry holds every module file")
+	if i < 0 {
+		return false
+	}
+	switch kind {
+	case vdTamperFlip:
+		old := b.objs[i].data
+		pos := verifNondetChoice(len(old))
+		nb := verifNondetByte()
+		verifAssume(nb != old[pos])
+		data := append([]byte(nil), old...)
+		data[pos] = nb
+		b.objs[i].data = data
+	case vdTamperTruncate:
+		old := b.objs[i].data
+		keep := []int{0, 1, len(old) - 1}[verifNondetChoice(3)]
+		b.objs[i].data = append([]byte(nil), old[:keep]...)
+	case vdTamperDelete:
+		b.remove(filesDir + victim.path)
+	case vdTamperAdd:
+		// a module file, a doc file (changes the doc-file choice), or a file the module filter ignores
+		name := []string{"zz.proto", "README.md", "notes.txt"}[verifNondetChoice(3)]
+		b.set(filesDir+name, verifNondetBytes(1))
+		return name == "notes.txt"
+	case vdTamperRename:
+		data := b.objs[i].data
+		b.remove(filesDir + victim.path)
+		b.set(filesDir+"renamed.proto", data)
+	case vdTamperSideFile:
+		p := dir + "/" + externalModuleDataV1BufYAMLDir + "/buf.yaml"
+		if m.bufYAML == nil || verifNondetBool() {
+			p = dir + "/" + externalModuleDataV1BufLockDir + "/buf.lock"
+			verifAssume(m.bufLock != nil)
+		}
+		j := b.find(p)
+		verifAssert(j >= 0, "harness: the complete entry holds the side file")
+		if j < 0 {
+			return false
+		}
+		if verifNondetBool() {
+			b.remove(p)
+		} else {
+			old := b.objs[j].data
+			pos := verifNondetChoice(2) * (len(old) - 1)
+			nb := verifNondetByte()
+			verifAssume(nb != old[pos])
+			data := append([]byte(nil), old...)
+			data[pos] = nb
+			b.objs[j].data = data
+		}
+		return true
+	}
+	return false
+}
+
+// vdTamperMarkerDoc replaces module.yaml: deleted, unparseable bytes, or any other *parseable* document (a nondet
+// externalModuleData marshalled through the codec).
+func vdTamperMarkerDoc(b *vdBucket, m *vdModule) {
+	p := vdEntryDir(m) + "/" + externalModuleDataFileName
+	j := b.find(p)
+	verifAssert(j >= 0, "harness: the complete entry has a marker")
+	switch verifNondetChoice(3) {
+	case 0:
+		b.remove(p)
+	case 1:
+		b.set(p, []byte("{{{ not yaml"))
+	case 2:
+		var cur externalModuleData
+		vdMust(encoding.UnmarshalYAMLNonStrict(b.objs[j].data, &cur))
+		doc := cur
+		switch verifNondetChoice(6) {
+		case 0:
+			doc.Version = []string{"", "v2"}[verifNondetChoice(2)]
+		case 1:
+			doc.FilesDir = []string{"", "v1_buf_yaml", "elsewhere"}[verifNondetChoice(3)]
+		case 2:
+			doc.Deps = nil
+		case 3:
+			// another dependency digest / an extra dependency
+			other := vdFixedDigest(bufmodule.DigestTypeB5, 0x22).String()
+			if len(doc.Deps) > 0 && verifNondetBool() {
+				deps := append([]externalModuleDataDep(nil), doc.Deps...)
+				deps[0].Digest = other
+				doc.Deps = deps
+			} else {
+				doc.Deps = append(append([]externalModuleDataDep(nil), doc.Deps...), externalModuleDataDep{
+					Name: "r.example/o/extra", Commit: "0102030405060708090a0b0c0d0e0f10", Digest: other})
+			}
+		case 4:
+			doc.V1BufYAMLFile = []string{"", externalModuleDataV1BufLockDir + "/buf.lock", "files/a.proto"}[verifNondetChoice(3)]
+		case 5:
+			doc.V1BufLockFile = []string{"", externalModuleDataV1BufYAMLDir + "/buf.yaml", "files/a.proto"}[verifNondetChoice(3)]
+		}
+		data, err := encoding.MarshalYAML(doc)
+		vdMust(err)
+		b.set(p, data)
+	}
+}
+
+// VerifLemma_C09C_Tamper: complete entry, one modification, then a read by a fresh store: miss; or a ModuleData whose
+// accessors fail (DigestMismatchError); or accessors that succeed and then serve exactly what the key's digest pins
+// (files and dependency digests for b5; files, v1 buf.yaml and buf.lock for b4).
+func VerifLemma_C09C_Tamper() {
+	thread.SetParallelism(1)
+	digestType := vdDigestType()
+	m := vdNewModule(digestType)
+	b := &vdBucket{}
+	verifAssert(vdPutOne(b, m) == nil, "fault-free put succeeds")
+	kind := verifParam("KIND")
+	if kind < 0 {
+		kind = verifNondetChoice(vdTamperKinds)
+	}
+	if kind == vdTamperSideFile {
+		verifAssume(m.bufYAML != nil || m.bufLock != nil)
+	}
+	if kind == vdTamperMarker {
+		vdTamperMarkerDoc(b, m)
+	} else {
+		vdTamper(b, m, kind)
+	}
+	verifCover("tampered")
+	got := vdGetOne(b, m)
+	if got == nil {
+		verifCover("tampered entry is a miss")
+		return
+	}
+	bucket, err := got.Bucket()
+	if err != nil {
+		verifCover("tampered entry fails the digest check")
+		var mismatch *bufmodule.DigestMismatchError
+		verifAssert(errors.As(err, &mismatch) || kind == vdTamperMarker, "a refused hit is refused with DigestMismatchError")
+		_, err2 := got.DepModuleKeys()
+		verifAssert(err2 != nil, "every accessor of a refused hit fails")
+		return
+	}
+	verifCover("tampered entry still served")
+	// served: everything the digest covers must be exactly the intended content
+	ctx := context.Background()
+	paths, err := storage.AllPaths(ctx, bucket, "")
+	verifAssert(err == nil && len(paths) == len(m.files), "served after tampering: exactly the intended files")
+	for _, f := range m.files {
+		data, err := storage.ReadPath(ctx, bucket, f.path)
+		verifAssert(err == nil && bytes.Equal(data, f.data), "served after tampering: file content equals the intended content")
+	}
+	deps, err := got.DepModuleKeys()
+	verifAssert(err == nil, "served after tampering: deps accessible")
+	if digestType == bufmodule.DigestTypeB5 {
+		verifAssert(len(deps) == len(m.deps), "served after tampering: dependency count as pinned")
+		for i := range deps {
+			if i < len(m.deps) {
+				want, _ := m.deps[i].Digest()
+				have, err := deps[i].Digest()
+				verifAssert(err == nil && bufmodule.DigestEqual(want, have), "served after tampering: dependency digest as pinned")
+			}
+		}
+	} else {
+		yamlData, err := got.V1Beta1OrV1BufYAMLObjectData()
+		verifAssert(err == nil && (yamlData == nil) == (m.bufYAML == nil), "served after tampering (b4): buf.yaml presence as pinned")
+		if yamlData != nil && m.bufYAML != nil {
+			verifAssert(yamlData.Name() == "buf.yaml" && bytes.Equal(yamlData.Data(), m.bufYAML), "served after tampering (b4): buf.yaml content as pinned")
+		}
+		lockData, err := got.V1Beta1OrV1BufLockObjectData()
+		verifAssert(err == nil && (lockData == nil) == (m.bufLock == nil), "served after tampering (b4): buf.lock presence as pinned")
+		if lockData != nil && m.bufLock != nil {
+			verifAssert(lockData.Name() == "buf.lock" && bytes.Equal(lockData.Data(), m.bufLock), "served after tampering (b4): buf.lock content as pinned")
+		}
 	}
 }
